@@ -14,3 +14,6 @@ for d in refactors/*/; do
   echo "REFACTOR $id: ${bad:-all 7 checks exit 0}"
 done
 [ -z "$(git -C /repo status --short)" ] || echo "WARNING /repo not clean"
+
+# these runs were made against a modified /repo: put the committed evidence files back
+git -C /verif checkout -- evidence 2>/dev/null
